@@ -29,6 +29,7 @@ type cenv struct {
 	loopPre *State // loop invariants: the state in which the loop was entered, for entry(e)
 	root   *cenv // the clause's top-level environment: lets are evaluated there, once
 	lets   map[string]Value
+	loopIter *State // state at the start of the current iteration (step clauses)
 	loopHead *ssa.BasicBlock // loop whose clause is evaluated: selects the hidden index of that range loop
 	pos    token.Pos // where the clause is evaluated (loop or call position): decides which of several same-named locals is meant
 }
@@ -685,6 +686,16 @@ func (e *cenv) call(x *CExpr) Value {
 				return s
 			}
 			return v
+		case "iter":
+			// iter(e): e over the heap as it was when the current iteration began, with the locals as they are now
+			if e.loopIter == nil {
+				cfail("iter() is only meaningful in a loop step clause")
+			}
+			c := e.child()
+			mixed := e.st.Clone()
+			mixed.heap = e.loopIter.heap
+			c.st = mixed
+			return c.eval(args[0])
 		case "forall", "exists":
 			if len(args) != 4 && len(args) != 2 {
 				cfail("%s needs (i, lo, hi, body) or (i, body)", f.Name)
